@@ -2,7 +2,7 @@
 import ast
 
 from ..model import AnalysisError, Model, walk_no_nested, norm_stmt, names_in
-from .. import flow, dispatch, loops
+from .. import flow, dispatch, loops, sem
 
 EXPLANATION = (
     'Decided on codecs/ber.py: (R1) every class whose tag is built with Encoding.CONSTRUCTED and that decodes through StandardDecodeMixin has '
@@ -51,98 +51,176 @@ def check(ctx):
                           % c.name, stmt='indefinite_allowed')
     if n1 < 3:
         raise AnalysisError('C04.R1 found only %d constructed mixin classes' % n1)
+    def enforce_arg(f):
+        """canonical (text, polarity) of the enforce_definite argument of the decode_length call(s) in f"""
+        v = sem.View(f)
+        out = []
+        for c in sem.method_calls(f, 'decode_length', v):
+            arg = None
+            for k in c.keywords:
+                if k.arg == 'enforce_definite':
+                    arg = k.value
+            if arg is None and len(c.args) >= 3:
+                arg = c.args[2]
+            out.append(None if arg is None else v.cond(arg))
+        return out
     f = mixin.methods['decode']
-    ok = 'decode_length(data, offset, enforce_definite=not self.indefinite_allowed)' in ast.unparse(f)
+    ea = enforce_arg(f)
+    ok = bool(ea) and all(x == ('self.indefinite_allowed', False) for x in ea)
     ctx.instance('C04.R1', 'StandardDecodeMixin.decode: enforce_definite = not self.indefinite_allowed', 'ok' if ok else 'VIOLATION', node=f, file=BER)
     if not ok:
         ctx.violation('C04.R1', BER, f, Model.qual(f), 'the mixin must enforce definite lengths exactly for classes that do not allow the indefinite form', stmt='enforce_definite wiring')
     f = model.func(BER, 'PrimitiveOrConstructedType.decode')
-    ok = 'decode_length(data, offset, enforce_definite=False)' in ast.unparse(f)
+    ea = enforce_arg(f)
+    ok = bool(ea) and all(x == ('True', False) for x in ea)
     ctx.instance('C04.R1', 'PrimitiveOrConstructedType.decode: enforce_definite=False', 'ok' if ok else 'VIOLATION', node=f, file=BER)
     if not ok:
         ctx.violation('C04.R1', BER, f, Model.qual(f), 'constructed strings may use the indefinite form: decode_length must be called with enforce_definite=False', stmt='enforce_definite=False')
-    ok = 'elif tag == self.constructed_tag:' in ast.unparse(f) and 'self.decode_constructed_contents(data, offset, length)' in ast.unparse(f)
-    ctx.instance('C04.R1', 'PrimitiveOrConstructedType.decode accepts the constructed tag', 'ok' if ok else 'VIOLATION', node=f, file=BER)
-    if not ok:
-        ctx.violation('C04.R1', BER, f, Model.qual(f), 'the constructed form of a string type is no longer recognised', stmt='constructed tag')
+    ps = sem.paths(f)
+    if ps is None:
+        ctx.instance('C04.R1', 'PrimitiveOrConstructedType.decode accepts the constructed tag', 'undecided', 'too many paths', nontrivial=False, node=f, file=BER)
+    else:
+        ok = any(p.mentions('self.constructed_tag', True) and p.calls('decode_constructed_contents') and p.outcome[0] == 'return' for p in ps)
+        ctx.instance('C04.R1', 'PrimitiveOrConstructedType.decode accepts the constructed tag', 'ok' if ok else 'VIOLATION', node=f, file=BER)
+        if not ok:
+            ctx.violation('C04.R1', BER, f, Model.qual(f), 'the constructed form of a string type is no longer recognised', stmt='constructed tag')
     dl = model.func(BER, 'decode_length')
-    ok = any(isinstance(n, ast.If) and ast.unparse(n.test) == 'length == 128' for n in walk_no_nested(dl)) and \
-        any(isinstance(n, ast.Return) and ast.unparse(n.value).replace(' ', '') in ('(None,offset)', 'None,offset') for n in walk_no_nested(dl))
+    dps = sem.paths(dl)
+    if dps is None:
+        raise AnalysisError('decode_length: too many paths')
+    # the path on which the first length octet equals 0x80 and definite lengths are not enforced returns None as the length
+    indef = [p for p in dps if p.outcome[0] == 'return' and isinstance(p.outcome[3], ast.Tuple) and isinstance(p.outcome[3].elts[0], ast.Constant)
+             and p.outcome[3].elts[0].value is None]
+    ok = bool(indef) and all(any('-128 == 0' in c[0] and c[1] for c in p.conds) for p in indef)
     ctx.instance('C04.R1', 'decode_length maps 0x80 to (None, offset)', 'ok' if ok else 'VIOLATION', node=dl, file=BER)
     if not ok:
         ctx.violation('C04.R1', BER, dl, Model.qual(dl), 'the indefinite-length octet 0x80 must yield length None', stmt='0x80 -> None')
 
     # ---- R2
+    def arith_on(expr, name):
+        """Is `name` an operand of arithmetic / an ordering comparison in expr (not merely passed on as an argument)?"""
+        for n in ast.walk(expr):
+            if isinstance(n, ast.BinOp) or (isinstance(n, ast.Compare) and not all(isinstance(o, (ast.Is, ast.IsNot)) for o in n.ops)):
+                stack = [n.left, n.right] if isinstance(n, ast.BinOp) else [n.left] + list(n.comparators)
+                while stack:
+                    x = stack.pop()
+                    if isinstance(x, ast.Name) and x.id == name:
+                        return n
+                    if isinstance(x, ast.Call):
+                        continue
+                    stack.extend(ast.iter_child_nodes(x))
+        return None
     for qual in ('MembersType.decode_content', 'ArrayType.decode_content', 'ExplicitTag.decode_content', 'PrimitiveOrConstructedType.decode_constructed_contents'):
         f = model.func(BER, qual)
-        bad = []
-        for n in walk_no_nested(f):
-            if isinstance(n, ast.BinOp) and 'length' in names_in(n) and isinstance(n.op, (ast.Add, ast.Sub, ast.Mult)):
-                guarded = False
-                # inside  X if length is None else <here>   or under an if testing length is None
-                for a in flow.ancestors(n):
-                    if isinstance(a, ast.IfExp) and 'length is None' in ast.unparse(a.test):
-                        guarded = True
-                for t, pol in flow.guards_of(n, f):
-                    if 'length is None' in ast.unparse(t) or 'length is not None' in ast.unparse(t):
-                        guarded = True
-                if not guarded:
-                    bad.append(n)
-            if isinstance(n, ast.Compare) and 'length' in names_in(n) and not isinstance(n.ops[0], (ast.Is, ast.IsNot)):
-                guarded = any('length is None' in ast.unparse(t) for t, pol in flow.guards_of(n, f))
-                # `elif (offset - start) >= length` after `if length is None`
-                par = getattr(n, '_parent', None)
-                if isinstance(par, ast.If):
-                    pp = getattr(par, '_parent', None)
-                    if isinstance(pp, ast.If) and par in pp.orelse and 'length is None' in ast.unparse(pp.test):
-                        guarded = True
-                if not guarded:
-                    bad.append(n)
-        has_none = 'length is None' in ast.unparse(f)
-        ends = any(isinstance(c, ast.Call) and ast.unparse(c.func) in ('detect_end_of_contents_tag', 'is_end_of_data', 'self.decode_members') for c in walk_no_nested(f))
-        ok = not bad and has_none and ends
-        ctx.instance('C04.R2', '%s handles length None before arithmetic and ends on end-of-contents' % Model.qual(f), 'ok' if ok else 'VIOLATION', node=f, file=BER)
+        params = flow.param_names(f)
+        if len(params) < 4:
+            raise AnalysisError('%s: expected (self, data, offset, length)' % Model.qual(f))
+        L = params[3]
+        ps = sem.paths(f)
+        if ps is None:
+            ctx.instance('C04.R2', '%s handles length None' % Model.qual(f), 'undecided', 'too many paths', nontrivial=False, node=f, file=BER)
+            continue
+        ps = sem.with_loop_bodies(ps)
+        none_lit = '%s is None' % L
+        bad = None
+        has_none = any(p.has(none_lit, True) for p in ps)
+        ends_ok = True
+        for p in ps:
+            is_none = p.has(none_lit, True)
+            is_some = p.has(none_lit, False)
+            exprs = [c[3] for c in p.conds if c[0] != none_lit] + [ev[3] for ev in p.events if len(ev) > 3 and ev[0].endswith('call')]
+            if p.outcome[0] == 'return' and len(p.outcome) > 3:
+                exprs.append(p.outcome[3])
+            if not is_some:
+                for e in exprs:
+                    hit = arith_on(e, L)
+                    if hit is not None:
+                        bad = hit
+                        break
+            if is_none and p.outcome[0] == 'return':
+                if not (p.calls('detect_end_of_contents_tag') or p.calls('is_end_of_data') or p.calls('decode_members')):
+                    ends_ok = False
+            if bad is not None:
+                break
+        ok = bad is None and has_none and ends_ok
+        ctx.instance('C04.R2', '%s handles length None before arithmetic and ends on end-of-contents [%d paths]' % (Model.qual(f), len(ps)), 'ok' if ok else 'VIOLATION', node=f, file=BER)
         if not ok:
-            why = ('uses `length` arithmetically (%s) without a dominating `length is None` test' % ast.unparse(bad[0])) if bad else \
-                  ('never tests `length is None`' if not has_none else 'the indefinite branch does not look for the end-of-contents octets')
-            ctx.violation('C04.R2', BER, bad[0] if bad else f, Model.qual(f), '%s: an indefinite-length encoding of this constructed type raises TypeError / is misparsed' % why, stmt='length None handling')
+            why = ('uses `%s` arithmetically (%s) on a path that has not established `%s is not None`' % (L, ast.unparse(bad), L)) if bad is not None else \
+                  ('never distinguishes `%s is None`' % L if not has_none else 'a path for the indefinite form returns without looking for the end-of-contents octets')
+            ctx.violation('C04.R2', BER, f, Model.qual(f), '%s: an indefinite-length encoding of this constructed type raises TypeError / is misparsed' % why, stmt='length None handling')
     f = model.func(BER, 'is_end_of_data')
-    src = ast.unparse(f)
-    ok = 'if end_offset is not None:' in src and 'elif detect_end_of_contents_tag(data, offset):' in src and 'return (True, offset + 2)' in src
-    ctx.instance('C04.R2', 'is_end_of_data: definite -> offset >= end_offset, indefinite -> 00 00 consumed', 'ok' if ok else 'VIOLATION', node=f, file=BER)
+    ps = sem.paths(f, positional=True)
+    # specification of the four cases over (data, offset, end_offset) = (ARG0, ARG1, ARG2)
+    table = {}
+    for p in ps or []:
+        table.setdefault(frozenset(p.cond_set()), set()).add(p.outcome[1] if p.outcome[0] == 'return' else p.outcome[0])
+    def lit(src, flip=False):
+        t, pol = sem.ccond(sem.parse_expr(src))
+        return (t, pol != flip)
+    ret = lambda src: sem.ctext(sem.parse_expr(src))
+    want = {
+        frozenset({lit('ARG2 is None'), lit('detect_end_of_contents_tag(ARG0, ARG1)')}): {ret('(True, ARG1 + 2)')},
+        frozenset({lit('ARG2 is None'), lit('detect_end_of_contents_tag(ARG0, ARG1)', True)}): {ret('(False, ARG1)')},
+        frozenset({lit('ARG2 is None', True), lit('ARG1 >= ARG2')}): {ret('(True, ARG1)')},
+        frozenset({lit('ARG2 is None', True), lit('ARG1 >= ARG2', True)}): {ret('(False, ARG1)')},
+    }
+    ok = table == want
+    ctx.instance('C04.R2', 'is_end_of_data: definite -> offset >= end_offset, indefinite -> 00 00 consumed [%d cases]' % len(table), 'ok' if ok else 'VIOLATION', node=f, file=BER)
     if not ok:
-        ctx.violation('C04.R2', BER, f, Model.qual(f), 'end-of-data detection changed (definite: offset >= end_offset; indefinite: end-of-contents octets, consumed)', stmt='is_end_of_data')
+        diff = sorted('%s -> %s' % (' & '.join(('' if p else 'not ') + t for t, p in sorted(k)), sorted(v)) for k, v in table.items() if want.get(k) != v)
+        ctx.violation('C04.R2', BER, f, Model.qual(f), 'end-of-data detection changed (definite: offset >= end_offset; indefinite: end-of-contents octets, consumed): %s' % '; '.join(diff)[:400], stmt='is_end_of_data')
 
     # ---- R3
     f = model.func(BER, 'Choice.get_member_tags')
-    src = ast.unparse(f)
-    ok = "hasattr(member, 'constructed_tag')" in src and 'tags.append(bytes(member.constructed_tag))' in src
+    attrs = {n.attr for n in walk_no_nested(f) if isinstance(n, ast.Attribute)}
+    adds = [c for c in walk_no_nested(f) if isinstance(c, ast.Call) and isinstance(c.func, ast.Attribute) and c.func.attr in ('append', 'extend', 'add', 'update', 'insert')
+            and any(isinstance(x, ast.Attribute) and x.attr == 'constructed_tag' for a in c.args for x in ast.walk(a))]
+    ok = 'constructed_tag' in attrs and bool(adds)
     ctx.instance('C04.R3', 'Choice.get_member_tags adds the constructed-tag alias', 'ok' if ok else 'VIOLATION', node=f, file=BER)
     if not ok:
         ctx.violation('C04.R3', BER, f, Model.qual(f), 'a string alternative of a CHOICE in constructed form is no longer dispatched (tag alias with the constructed bit missing)', stmt='constructed alias')
-    ok = 'isinstance(member, Choice)' in src and 'self.get_choice_tags(member)' in src and 'isinstance(member, Recursive)' in src and 'self.get_member_tags(member.inner)' in src
+    isinst = {ast.unparse(c.args[1]) for c in walk_no_nested(f) if isinstance(c, ast.Call) and isinstance(c.func, ast.Name) and c.func.id == 'isinstance' and len(c.args) == 2}
+    rec = [c for c in sem.method_calls(f, 'get_member_tags') if any(isinstance(x, ast.Attribute) and x.attr == 'inner' for a in c.args for x in ast.walk(a))]
+    ok = 'Choice' in isinst and bool(sem.method_calls(f, 'get_choice_tags')) and 'Recursive' in isinst and bool(rec)
     ctx.instance('C04.R3', 'Choice.get_member_tags recurses into nested CHOICE and Recursive', 'ok' if ok else 'VIOLATION', node=f, file=BER)
     if not ok:
         ctx.violation('C04.R3', BER, f, Model.qual(f), 'untagged nested CHOICE / recursive alternatives are no longer reachable by their tags', stmt='nested alternatives')
     f = model.func(BER, 'Choice.decode')
-    ok = 'tag = bytes(read_tag(data, offset))' in ast.unparse(f) and 'if tag in self.tag_to_member:' in ast.unparse(f)
-    ctx.instance('C04.R3', 'Choice.decode dispatches on the full identifier octets', 'ok' if ok else 'VIOLATION', node=f, file=BER)
-    if not ok:
+    ps = sem.paths(f)
+    ok = ps is not None and any(any('read_tag(' in c[0] and c[0].endswith(' in self.tag_to_member') and c[1] for c in p.conds) for p in ps)
+    ctx.instance('C04.R3', 'Choice.decode dispatches on the full identifier octets', 'ok' if ok else ('undecided' if ps is None else 'VIOLATION'), node=f, file=BER)
+    if not ok and ps is not None:
         ctx.violation('C04.R3', BER, f, Model.qual(f), 'CHOICE dispatch no longer uses the complete identifier octets', stmt='tag dispatch')
 
     # ---- R4
     f = model.func(BER, 'MembersType.decode_members')
     ws = [n for n in walk_no_nested(f) if isinstance(n, ast.While)]
-    if len(ws) != 1:
-        raise AnalysisError('decode_members: expected one while loop')
     from ..callgraph import CallGraph
-    tmpl, ok, why = loops.classify_while(ws[0], f, model, CallGraph(model))
-    ok = ok and tmpl == 'T-RETRY'
-    ctx.instance('C04.R4', 'MembersType.decode_members retry loop: %s' % tmpl, 'ok' if ok else 'VIOLATION', why, node=ws[0], file=BER)
-    if not ok:
-        ctx.violation('C04.R4', BER, ws[0], Model.qual(f), 'members that did not match in this pass must be offered again while another member decoded (%s): SET components in any order are valid BER' % why, stmt='retry loop')
-    # a mismatching member must not consume input nor abort: TAG_MISMATCH -> appended to the undecoded list
-    ok = any(isinstance(n, ast.If) and 'value == TAG_MISMATCH' in ast.unparse(n.test) and 'undecoded_members.append(member)' in ast.unparse(n.body[0]) for n in walk_no_nested(f))
+    cg = CallGraph(model)
+    found = False
+    for w in ws:
+        tmpl, ok, why = loops.classify_while(w, f, model, cg)
+        if tmpl != 'T-RETRY':
+            continue
+        found = True
+        ctx.instance('C04.R4', 'MembersType.decode_members retry loop: %s' % tmpl, 'ok' if ok else 'VIOLATION', why, node=w, file=BER)
+        if not ok:
+            ctx.violation('C04.R4', BER, w, Model.qual(f), 'members that did not match in this pass must be offered again while another member decoded (%s): SET components in any order are valid BER' % why, stmt='retry loop')
+    if not found:
+        # the member loop is not in the retry shape any more: either it gives up after one pass (a violation) or it was rewritten
+        # in a way this template does not follow.  One pass over the members = a `for` over them that is not inside a loop that re-offers.
+        single = [n for n in walk_no_nested(f) if isinstance(n, ast.For) and any(isinstance(c, ast.Call) and loops.is_type_decode_call(c, loops.decode_aliases(f)) for c in walk_no_nested(n))]
+        gives_up = bool(single) and all(not any(isinstance(a, ast.While) for a in flow.ancestors(n) if a is not f) or
+                                        any(isinstance(s, ast.Break) for a in flow.ancestors(n) if isinstance(a, ast.While) for s in a.body) for n in single)
+        ctx.instance('C04.R4', 'MembersType.decode_members retry loop', 'VIOLATION' if gives_up else 'undecided', node=f, file=BER)
+        if gives_up:
+            ctx.violation('C04.R4', BER, f, Model.qual(f), 'members that did not match in this pass must be offered again while another member decoded (the member loop runs a single pass): SET components in any order are valid BER', stmt='retry loop')
+        else:
+            ctx.note('C04.R4: decode_members has no loop in the retry shape: undecided')
+    # a mismatching member must not consume input nor abort: TAG_MISMATCH -> deferred to a list
+    ok = any(isinstance(n, ast.If) and 'TAG_MISMATCH' in ast.unparse(n.test) and
+             any(isinstance(c, ast.Call) and isinstance(c.func, ast.Attribute) and c.func.attr in ('append', 'add', 'extend', 'insert') for s in n.body + n.orelse for c in ast.walk(s))
+             for n in walk_no_nested(f))
     ctx.instance('C04.R4', 'a member whose tag does not match is deferred, not an error', 'ok' if ok else 'VIOLATION', node=f, file=BER)
     if not ok:
         ctx.violation('C04.R4', BER, f, Model.qual(f), 'a tag mismatch must defer the member to the next pass', stmt='defer on mismatch')
@@ -150,6 +228,9 @@ def check(ctx):
     # ---- R5
     poc = model.cls(BER, 'PrimitiveOrConstructedType')
     n5 = 0
+    pinit = poc.methods['__init__']
+    pparams = flow.param_names(pinit)[1:]
+    seg_idx = pparams.index('segment') if 'segment' in pparams else 3
     for kind, cell in sorted(tab.cells.items()):
         c = cell.cls
         if c is None or poc not in c.mro():
@@ -159,28 +240,34 @@ def check(ctx):
         seg = None
         for n in walk_no_nested(init):
             if isinstance(n, ast.Call) and isinstance(n.func, ast.Attribute) and n.func.attr == '__init__':
-                if len(n.args) >= 4:
-                    seg = ast.unparse(n.args[3])
-        want = 'self' if kind in ('BIT STRING', 'OCTET STRING') else 'OctetString(name)'
-        ok = seg == want
+                if len(n.args) > seg_idx:
+                    seg = ast.unparse(n.args[seg_idx])
+                for k in n.keywords:
+                    if k.arg == 'segment':
+                        seg = ast.unparse(k.value)
+        ok = seg == 'self' if kind in ('BIT STRING', 'OCTET STRING') else (seg is not None and seg.startswith('OctetString('))
         ctx.instance('C04.R5', "ber['%s'] -> %s segment = %s" % (kind, c.qname, seg), 'ok' if ok else 'VIOLATION', node=init, file=BER)
         if not ok:
-            ctx.violation('C04.R5', BER, init, '%s::%s.__init__' % (BER, c.name), 'segments of a constructed %s must be decoded as %s (X.690 8.7/8.21)' % (kind, 'the same type' if want == 'self' else 'OCTET STRING'), stmt='segment type')
+            ctx.violation('C04.R5', BER, init, '%s::%s.__init__' % (BER, c.name), 'segments of a constructed %s must be decoded as %s (X.690 8.7/8.21)' % (kind, 'the same type' if kind in ('BIT STRING', 'OCTET STRING') else 'OCTET STRING'), stmt='segment type')
     if n5 < 12:
         raise AnalysisError('C04.R5 found only %d primitive-or-constructed cells' % n5)
     f = poc.methods['decode_constructed_contents']
-    ok = 'self.segment.decode(data, offset)' in ast.unparse(f) and 'self.decode_constructed_segments(segments)' in ast.unparse(f)
+    v = sem.View(f)
+    segdec = [c for c in sem.method_calls(f, 'decode', v) if isinstance(v.expr(c.func), ast.Attribute) and v.text(v.expr(c.func).value) == 'self.segment']
+    ok = bool(segdec) and bool(sem.method_calls(f, 'decode_constructed_segments', v))
     ctx.instance('C04.R5', 'decode_constructed_contents decodes each segment with the segment type (nested segmentation recurses)', 'ok' if ok else 'VIOLATION', node=f, file=BER)
     if not ok:
         ctx.violation('C04.R5', BER, f, Model.qual(f), 'constructed contents must be decoded segment by segment through self.segment.decode', stmt='segment recursion')
     st = model.cls(BER, 'StringType')
     f = st.methods['decode_constructed_segments']
+    segs = flow.param_names(f)[1]
     # the text decoding (.decode(self.ENCODING)) is applied to the join of all segments, not inside a loop/comprehension over them
     decs = [c for c in walk_no_nested(f) if isinstance(c, ast.Call) and isinstance(c.func, ast.Attribute) and c.func.attr == 'decode' and 'ENCODING' in ast.unparse(c)]
+    v = sem.View(f)
     ok = len(decs) == 1
     if ok:
-        recv = decs[0].func.value
-        ok = isinstance(recv, ast.Call) and isinstance(recv.func, ast.Attribute) and recv.func.attr == 'join' and 'segments' in ast.unparse(recv) \
+        recv = v.expr(decs[0].func.value)
+        ok = isinstance(recv, ast.Call) and isinstance(recv.func, ast.Attribute) and recv.func.attr == 'join' and segs in names_in(recv) \
             and not any(isinstance(a, (ast.GeneratorExp, ast.ListComp, ast.For)) for a in flow.ancestors(decs[0]) if a is not f)
     ctx.instance('C04.R5', 'StringType.decode_constructed_segments decodes the text once, from the joined segments', 'ok' if ok else 'VIOLATION', node=f, file=BER)
     if not ok:
@@ -188,19 +275,47 @@ def check(ctx):
                       'the character decoding must be applied to the concatenation of all segments: X.690 lets a segment boundary fall anywhere, also inside a multi-octet '
                       'character (UTF-8, BMPString, UniversalString), which per-segment decoding rejects', stmt='join before decode')
     bs = model.cls(BER, 'BitString').methods['decode_constructed_segments']
-    ok = 'decoded.extend(data)' in ast.unparse(bs) and 'number_of_bits += length' in ast.unparse(bs)
-    ctx.instance('C04.R5', 'BitString.decode_constructed_segments concatenates data and adds bit counts', 'ok' if ok else 'VIOLATION', node=bs, file=BER)
+    segs = flow.param_names(bs)[1]
+    # both components of every segment (octets, bit count) flow into the returned value
+    rets = [r for r in walk_no_nested(bs) if isinstance(r, ast.Return) and r.value is not None]
+    loops_over = [n for n in walk_no_nested(bs) if isinstance(n, (ast.For, ast.comprehension)) and segs in names_in(n.iter)]
+    ok = bool(rets) and bool(loops_over)
+    if ok:
+        comp = set()
+        for lp in loops_over:
+            comp |= set(flow.target_names(lp.target))
+        for nm in comp:
+            d, ed = flow.deps(bs, sources={nm})
+            if not any(nm in ed(r.value) for r in rets):
+                ok = False
+        if len(comp) < 2:
+            # `for segment in segments`: both segment[0] and segment[1] must be read
+            subs = {ast.unparse(n.slice) for n in walk_no_nested(bs) if isinstance(n, ast.Subscript) and isinstance(n.value, ast.Name) and n.value.id in comp}
+            ok = ok and {'0', '1'} <= subs
+    ctx.instance('C04.R5', 'BitString.decode_constructed_segments: octets and bit count of every segment reach the result', 'ok' if ok else 'VIOLATION', node=bs, file=BER)
     if not ok:
         ctx.violation('C04.R5', BER, bs, Model.qual(bs), 'constructed BIT STRING segments must be concatenated and their bit counts added', stmt='bit string segments')
 
     # ---- R6
-    cmps = [ast.unparse(n) for n in walk_no_nested(dl) if isinstance(n, ast.Compare)]
-    allowed = {'length == 128', 'len(encoded_length) != number_of_bytes', 'offset + length > data_length', 'offset + length > len(encoded)'}
-    extra = [c for c in cmps if c not in allowed]
-    ctx.instance('C04.R6', 'decode_length comparisons %s' % cmps, 'ok' if not extra else 'VIOLATION', node=dl, file=BER)
+    # decode_length may refuse an encoding only because (a) the indefinite form is not allowed here, or (b) octets are missing
+    # (a comparison with the amount of data present).  Any other reason to raise is a restriction BER does not have
+    # (bound on the number of length octets, minimality).
+    extra = []
+    n_raise = 0
+    for p in dps:
+        if p.outcome[0] != 'raise' or not p.conds:
+            continue
+        n_raise += 1
+        t, pol = p.conds[-1][0], p.conds[-1][1]
+        if (t == 'enforce_definite' and pol) or 'len(' in t:
+            continue
+        extra.append(('' if pol else 'not ') + t)
+    ctx.instance('C04.R6', 'decode_length: %d raising paths, each for a missing-data or enforce_definite reason' % n_raise, 'ok' if not extra else 'VIOLATION', node=dl, file=BER)
+    if n_raise < 3:
+        raise AnalysisError('decode_length: only %d raising paths seen' % n_raise)
     if extra:
         ctx.violation('C04.R6', BER, dl, Model.qual(dl),
-                      'decode_length has an additional test %s: BER allows any number of length octets and non-minimal lengths (only DER forbids them)' % extra, stmt='extra length test')
+                      'decode_length also rejects encodings when %s: BER allows any number of length octets and non-minimal lengths (only DER forbids them)' % sorted(set(extra)), stmt='extra length test')
 
 
 MUTANTS = [
